@@ -38,9 +38,10 @@ def kids(n, form, T):
 
 def final_masses(s):
     m = list(BASE_MASS[: s["n"]])
-    for pr in s["ident"]:
-        i, j = sorted(pr)
-        m[j - 1] = m[i - 1]
+    for grp in s["ident"]:
+        g = sorted(grp)
+        for j in g[1:]:
+            m[j - 1] = m[g[0] - 1]
     return m
 
 
@@ -146,7 +147,7 @@ def skey(s):
         "".join(str(f[0]) for f in s["fin"]),
         ch,
         s["pb"],
-        "".join("".join(map(str, sorted(p))) for p in s["ident"]) or "-",
+        ".".join("".join(map(str, sorted(p))) for p in sorted(map(sorted, s["ident"]))) or "-",
         s.get("model", 0),
     )
 
